@@ -220,6 +220,77 @@ fn mode_lookup(dir: &str, id: &str, line: usize, col: usize) {
     println!("{{\"ast\":true,\"all\":{},\"items\":{},\"elements\":{}}}", f(SymbolFilter::All), f(SymbolFilter::ItemsOnly), f(SymbolFilter::ItemsAndItemElements));
 }
 
+fn digest(res: &HashMap<String, ParseFileResult<String>>) -> String {
+    let mut keys: Vec<&String> = res.keys().collect();
+    keys.sort();
+    let mut s = String::new();
+    for k in keys { let _ = write!(s, "{}=>{}\n", k, result_json(&res[k])); }
+    s
+}
+
+/// Script of operations (one per line): `add <id> <file>`, `remove <id>`, `validate`, `addfile <path>` (id = the path), `reset`.
+/// After every step the parser's validate() output is compared with that of a fresh parser holding the model map
+/// (inserted in the reverse order), validate() is repeated, and add_file is compared with add_content under the path.
+/// Output: counts and the first failing steps only.
+fn mode_history(script: &str) {
+    let text = std::fs::read_to_string(script).unwrap();
+    let mut cache: HashMap<String, String> = HashMap::new();
+    let mut parser: Parser<String> = Parser::new();
+    let mut fparser: Parser<std::path::PathBuf> = Parser::new();
+    let mut model: std::collections::BTreeMap<String, String> = std::collections::BTreeMap::new();
+    let mut fmodel: std::collections::BTreeMap<std::path::PathBuf, String> = std::collections::BTreeMap::new();
+    let mut bad = Vec::new();
+    let (mut steps, mut histories) = (0usize, 1usize);
+    let mut hist: Vec<&str> = Vec::new();
+    for line in text.lines() {
+        let parts: Vec<&str> = line.splitn(3, ' ').collect();
+        let mut note = String::new();
+        let mut file_ok = true;
+        match parts[0] {
+            "reset" => { parser = Parser::new(); fparser = Parser::new(); model.clear(); fmodel.clear(); hist.clear(); histories += 1; continue; }
+            "add" => {
+                let c = cache.entry(parts[2].to_string()).or_insert_with(|| std::fs::read_to_string(parts[2]).unwrap()).clone();
+                parser.add_content(parts[1].to_string(), &c); model.insert(parts[1].to_string(), c);
+            }
+            "remove" => { parser.remove_content(parts[1].to_string()); model.remove(parts[1]); }
+            "validate" => { let _ = parser.validate(); }
+            "addfile" => {
+                let r = fparser.add_file(parts[1]);
+                let readable = std::fs::read(parts[1]).ok().and_then(|b| String::from_utf8(b).ok());
+                if let Some(t) = &readable { fmodel.insert(std::path::PathBuf::from(parts[1]), t.clone()); }
+                let mut fresh: Parser<std::path::PathBuf> = Parser::new();
+                for (k, v) in fmodel.iter() { fresh.add_content(k.clone(), v); }
+                file_ok = r.is_ok() == readable.is_some() && digest_pb(&fparser.validate()) == digest_pb(&fresh.validate());
+                note = format!(",\"addfile_ok\":{},\"readable\":{}", r.is_ok(), readable.is_some());
+            }
+            _ => {}
+        }
+        hist.push(line);
+        steps += 1;
+        let got = digest(&parser.validate());
+        let again = digest(&parser.validate());
+        let mut fresh: Parser<String> = Parser::new();
+        for (k, v) in model.iter().rev() { fresh.add_content(k.clone(), v); }
+        let want = digest(&fresh.validate());
+        let keys_ok = parser.validate().len() == model.len();
+        if (got != want || got != again || !file_ok || !keys_ok) && bad.len() < 5 {
+            bad.push(format!("{{\"history\":[{}],\"equal_to_fresh\":{},\"idempotent\":{},\"file_ok\":{},\"keys_ok\":{}{}}}",
+                hist.iter().map(|l| esc(l)).collect::<Vec<_>>().join(","), got == want, got == again, file_ok, keys_ok, note));
+        }
+    }
+    println!("{{\"histories\":{},\"steps\":{},\"bad\":[{}]}}", histories, steps, bad.join(","));
+}
+fn digest_pb(res: &HashMap<std::path::PathBuf, ParseFileResult<std::path::PathBuf>>) -> String {
+    let mut keys: Vec<&std::path::PathBuf> = res.keys().collect();
+    keys.sort();
+    let mut s = String::new();
+    for k in keys {
+        let r = &res[k];
+        let _ = write!(s, "{:?}=>{:?}|{}|{}\n", k, r.id, r.ast.as_ref().map(ast_json).unwrap_or_default(), diags(&r.diagnostics));
+    }
+    s
+}
+
 fn main() {
     std::panic::set_hook(Box::new(|_| {}));
     let a: Vec<String> = std::env::args().collect();
@@ -230,6 +301,7 @@ fn main() {
         Some("javadoc") => mode_javadoc(&a[2]),
         Some("ets") => mode_ets(a[2].parse().unwrap()),
         Some("lookup") => mode_lookup(&a[2], &a[3], a[4].parse().unwrap(), a[5].parse().unwrap()),
+        Some("history") => mode_history(&a[2]),
         _ => { eprintln!("usage: vreplay project|determinism|roundtrip|javadoc|ets|lookup ..."); std::process::exit(64); }
     }
 }
